@@ -505,6 +505,8 @@ def ancilla_rules(ctx, rid, modname):
     from .C14 import reset_reachability, refresh_order
     reset_reachability(ctx, rid)
     refresh_order(ctx, rid)
+    from .C05 import derived_from_copy
+    derived_from_copy(ctx, rid)
 
 
 def _is_counter_expr(e, sn):
